@@ -23,7 +23,7 @@ func init() {
 		Title: "Decoded packets own their memory and packets do not interfere",
 		Level: "model_checking",
 		Rule: "explicit enumeration of operation histories over a pool of up to three real packets and one reusable read buffer: decode frame f (one rich frame per type, 16 incl. type 0) through ReadPacket from the buffer or through UnmarshalBinary(buf[hdr:n]) on the type's zero value; scribble (overwrite the buffer with ff); encode packet i; String+Dump packet i; call one of four setters/adders on packet i. " +
-			"All sequences of length <=3 (quick) / <=4 (thorough). Invariants in the state reached by every sequence: (1) the full observation (accessors, String, re-encoding) of every packet not targeted by the last operation equals the snapshot taken when it was last targeted; (2) a freshly decoded packet equals the reference decode of the same frame in a pristine process (history independence); (3) the deep digest of all package-level variables is unchanged; (4) alias analysis of the concrete object graphs: no mutable memory region shared between two pool packets or between a packet and the caller's buffer. " +
+			"All sequences of length <=3 (quick) / <=4 (thorough). Invariants in the state reached by every sequence: (1) the full observation (accessors, String, re-encoding) of every packet not targeted by the last operation equals the snapshot taken when it was last targeted; (2) a freshly decoded packet equals the reference decode of the same frame in a pristine process (history independence); (3) whenever the deep digest of the package-level variables differs from its initial value, packets freshly built with the constructors must still encode and render exactly as in a pristine process; (4) alias analysis of the concrete object graphs: no mutable memory region shared between two pool packets or between a packet and the caller's buffer. " +
 			"states = sequences executed (each replayed on fresh objects), transitions = operations executed; distinct_nontrivial = distinct sequences containing at least one decode followed by another operation.",
 		Assumptions: []string{
 			"string data is immutable in Go and may be shared; only mutable regions (slice backing arrays, pointees, maps) count as aliasing",
@@ -43,7 +43,29 @@ type poolOp struct {
 	Mutate int
 }
 
+// c14GlobalChanges counts histories after which package-level state
+// differed without observable effect.
+var c14GlobalChanges int64
+
+// c14Probe builds one packet of every type with the constructors and
+// renders it.
+func c14Probe() string {
+	var sb strings.Builder
+	for t := byte(1); t <= 15; t++ {
+		for _, p := range []*spec.Packet{minimalPacket(t), richPacket(t, true)} {
+			q, err := bind.Build(p)
+			if err != nil {
+				continue
+			}
+			sb.WriteString(c14Obs(q))
+			sb.WriteString("\n")
+		}
+	}
+	return sb.String()
+}
+
 type poolFrames struct {
+	probe  string
 	frames [][]byte
 	hdr    []int
 	ref    []string // reference observation of a pristine decode
@@ -62,6 +84,7 @@ func c14Frames() *poolFrames {
 	for t := byte(1); t <= 15; t++ {
 		add(mustEncode(richPacket(t, true), spec.Form{}))
 	}
+	pf.probe = c14Probe()
 	for i, f := range pf.frames {
 		p, err, res := readPacket(bytes.NewReader(f), stepBudget(len(f)))
 		if err != nil || res.Panic != "" || res.Budget {
@@ -118,6 +141,7 @@ func c14Alphabet(pf *poolFrames) []poolOp {
 // c14Run replays a sequence on a fresh pool and evaluates the invariants
 // in the final state. valid=false: the sequence is not executable.
 func c14Run(pf *poolFrames, ops []poolOp, seq []int, globals0 digest.Sum) (f *core.Finding, valid bool) {
+	resetGlobals()
 	buf := make([]byte, 512)
 	var pool []mq.Packet
 	var snap []string
@@ -213,10 +237,14 @@ func c14Run(pf *poolFrames, ops []poolOp, seq []int, globals0 digest.Sum) (f *co
 			return mk("bystander-changed/"+strings.TrimPrefix(fmt.Sprintf("%T", p), "*mq."), fmt.Sprintf("packet #%d (%T) not targeted by the last operation changed: %q -> %q", i, p, clip(snap[i], 140), clip(got, 140))), true
 		}
 	}
-	// (3) globals
+	// (3) package-level state: if its digest changed, packets built fresh
+	// by the constructors must still behave as in a pristine process
 	if g := globalsRoots(); g != nil {
 		if now := stateDigest(g...); now != globals0 {
-			return mk("globals-written", "the deep digest of the package-level variables changed"), true
+			c14GlobalChanges++
+			if got := c14Probe(); got != pf.probe {
+				return mk("history-dependent-constructors", fmt.Sprintf("after this history freshly constructed packets encode/render as %q, in a pristine process as %q", clip(firstDiff(got, pf.probe), 120), clip(firstDiff(pf.probe, got), 120))), true
+			}
 		}
 	}
 	// (4) aliasing between packets and with the caller's buffer
@@ -310,6 +338,7 @@ func runC14(x *core.Ctx) {
 	}
 	rec()
 	x.R.MaxDepth = int64(depth)
+	x.R.Extra["global_state_changes_without_observable_effect"] = c14GlobalChanges
 	x.Sample("sequences", 1, func() any {
 		return map[string]any{"alphabet": len(ops), "example": []string{"unmarshal(RESERVED)", "scribble", "render(#0)"}, "frames": len(pf.frames)}
 	})
